@@ -143,7 +143,7 @@ theorem typedArgs_of_vals1 : (es : List Expr) → PT.vals1 es = true → PT.stri
       simp only [PT.vals1, Bool.and_eq_true] at h
       simp only [PT.strictArgs, Bool.and_eq_true] at hs
       simp only [typedArgs, Bool.and_eq_true]
-      exact ⟨⟨typed_of_pt e h.1.1 hs.1.1, hs.1.2⟩, typedArgs_of_vals1 rest h.2 hs.2⟩
+      exact ⟨⟨typed_of_pt e h.1.1.1 hs.1.1, hs.1.2⟩, typedArgs_of_vals1 rest h.2 hs.2⟩
 
 theorem typedArgs_of_exprs : (es : List Expr) → PT.exprs es = true → PT.strictArgs es = true → typedArgs es = true
   | [], _, _ => rfl
